@@ -59,7 +59,7 @@ def check(prop, tier, seed, replay_path=None, selftest=False, keep=False):
                     "base": e["base"], "flavour": e["flavour"], "set": e["set"], "syntax": e["syntax"], "features": e["features"], "params": e["params"],
                     "rterr": e["runtime_gen_err"],
                     "req": {"prefix": prefix, "permsg": "filepermessage=true" in e["params"],
-                            "msgs": [{"short": m["short"], "lower": m["short"].lower()} for m in e["messages"]]},
+                            "msgs": [{"short": m["short"], "lower": m["short"].lower()} for m in (e["messages"] or [])]},
                     "o": {"err1": e["gen_err"][:300], "err2": e["gen_err2"][:300], "names": [x["name"] for x in files],
                           "sha1": [x["sha1"] for x in files], "sha2": [x["sha2"] for x in files],
                           "multi": 1 if e.get("multi") else 0, "err3": (e.get("gen_err3") or "")[:300], "sha3": [x.get("sha3", "") for x in files],
